@@ -102,6 +102,12 @@ pub fn critical(expr: &OpeningHoursExpression, ctx: &Ctx) -> Vec<i64> {
         }
     }
 
+    // the exceptions of the leap-year rule are boundary values for anything written around the end
+    // of February: a common century year (2100), the leap years around it and a leap century (2400)
+    if dates.iter().any(|(m, d, _)| *m == 2 && *d >= 28) || months.contains(&2) {
+        years.extend([2096, 2098, 2100, 2104, 2400]);
+    }
+
     let years: Vec<i32> = years.into_iter().flat_map(|y| [y - 1, y, y + 1]).filter(|y| (1899..=10_000).contains(y)).collect();
 
     for &y in &years {
